@@ -472,3 +472,148 @@ theorem root_binding (P : List Nat → Nat) (hcr : HashCR P) :
       rw [ihl l' this.1, ihr r' this.2]
 
 end Gsp.Smt
+
+/-! ### soundness of Merkle proofs under the idealised-hash hypothesis -/
+namespace Gsp.Smt
+
+/-- top-down reading of `climb`: the node at level `lvl` on `k`'s path given the siblings from `lvl` downwards -/
+def topdown (P : List Nat → Nat) (k start : Nat) : List Nat → Nat → Nat
+  | [], _ => start
+  | s :: rest, lvl => if bit k lvl then P [s, topdown P k start rest (lvl+1)] else P [topdown P k start rest (lvl+1), s]
+
+theorem climb_append (P : List Nat → Nat) (k : Nat) : ∀ (a : List Nat) (m : Nat) (s : Nat) (top : Nat),
+    a.length < top →
+    climb P k m (a ++ [s]) top =
+      (if bit k (top - a.length - 1) then P [s, climb P k m a top] else P [climb P k m a top, s]) := by
+  intro a
+  induction a with
+  | nil => intro m s top _; simp [climb]
+  | cons x xs ih =>
+    intro m s top hlt
+    simp only [List.cons_append, climb, List.length_cons] at hlt ⊢
+    have hlt' : xs.length < top - 1 := by omega
+    rw [ih _ s (top - 1) hlt']
+    have e : top - 1 - xs.length - 1 = top - (xs.length + 1) - 1 := by omega
+    simp only [e]
+
+theorem climb_eq_topdown (P : List Nat → Nat) (k start : Nat) : ∀ (sibs : List Nat) (lvl : Nat),
+    climb P k start sibs.reverse (lvl + sibs.length) = topdown P k start sibs lvl := by
+  intro sibs
+  induction sibs with
+  | nil => intro lvl; simp [climb, topdown]
+  | cons s rest ih =>
+    intro lvl
+    simp only [List.reverse_cons, List.length_cons, topdown]
+    have hl : rest.reverse.length < lvl + (rest.length + 1) := by simp; omega
+    rw [climb_append P k rest.reverse start s _ hl]
+    simp only [List.length_reverse]
+    have e1 : lvl + (rest.length + 1) - rest.length - 1 = lvl := by omega
+    have e2 : lvl + (rest.length + 1) = (lvl + 1) + rest.length := by omega
+    simp only [e1]
+    rw [e2, ih (lvl + 1)]
+
+/-- what a proof *claims* about key `k`: present with value `v`, or absent -/
+def claims (p : Proof) (k v : Nat) (t : T) (lvl : Nat) : Prop :=
+  if p.existence then lookup k t lvl = some v else lookup k t lvl = none
+
+theorem topdown_sound (P : List Nat → Nat) (hcr : HashCR P) (k : Nat) :
+    ∀ (sibs : List Nat) (lvl : Nat) (t : T) (start : Nat) (res : Option Nat),
+      topdown P k start sibs lvl = T.hash P t →
+      -- the start value is the hash of a leaf / empty node that determines `res`
+      (∀ t' : T, T.hash P t' = start → ∀ l, lookup k t' l = res) →
+      lookup k t lvl = res := by
+  intro sibs
+  induction sibs with
+  | nil =>
+    intro lvl t start res h hs
+    simp only [topdown] at h
+    exact hs t h.symm lvl
+  | cons s rest ih =>
+    intro lvl t start res h hs
+    simp only [topdown] at h
+    cases t with
+    | empty =>
+      simp only [T.hash] at h
+      split at h <;> exact absurd h (hcr.nz _ (by simp))
+    | leaf k' v' =>
+      simp only [T.hash] at h
+      split at h <;> (have := hcr.inj _ _ (by simp) (by simp) h; simp at this)
+    | mid l r =>
+      simp only [T.hash] at h
+      split at h
+      · rename_i hb
+        have := hcr.inj _ _ (by simp) (by simp) h
+        simp at this
+        simp only [lookup, hb, if_true]
+        exact ih (lvl+1) r start res this.2 hs
+      · rename_i hb
+        have := hcr.inj _ _ (by simp) (by simp) h
+        simp at this
+        simp only [lookup, hb]
+        exact ih (lvl+1) l start res this.1 hs
+
+/-- **Soundness of proof verification**: under the idealised-hash hypothesis, a proof that recomputes the root
+    of tree `t` tells the truth — an accepted existence proof means the key is in `t` with that value, an
+    accepted non-existence proof means the key is absent from `t`. -/
+theorem verify_sound (P : List Nat → Nat) (hcr : HashCR P) (t : T) (p : Proof) (k v : Nat)
+    (h : rootFromProof P p k v = some (T.hash P t)) :
+    if p.existence then lookup k t 0 = some v else lookup k t 0 = none := by
+  unfold rootFromProof at h
+  simp only at h
+  have key : ∀ start res, (∀ t' : T, T.hash P t' = start → ∀ l, lookup k t' l = res) →
+      climb P k start p.siblings.reverse p.siblings.length = T.hash P t → lookup k t 0 = res := by
+    intro start res hs hc
+    have := climb_eq_topdown P k start p.siblings 0
+    simp only [Nat.zero_add] at this
+    rw [this] at hc
+    exact topdown_sound P hcr k p.siblings 0 t start res hc hs
+  cases hex : p.existence with
+  | true =>
+    simp only [hex, if_true, Option.map_some, Option.some.injEq] at h
+    simp only [if_true]
+    apply key (P [k, v, 1]) (some v) _ h
+    intro t' ht' l
+    cases t' with
+    | empty => simp [T.hash] at ht'; exact absurd ht'.symm (hcr.nz _ (by simp))
+    | leaf k' v' =>
+      simp [T.hash] at ht'
+      have := hcr.inj _ _ (by simp) (by simp) ht'
+      simp at this
+      simp [lookup, this.1, this.2]
+    | mid l' r' =>
+      simp [T.hash] at ht'
+      have := hcr.inj _ _ (by simp) (by simp) ht'
+      simp at this
+  | false =>
+    simp only [hex, Bool.false_eq_true, if_false] at h ⊢
+    cases haux : p.aux with
+    | none =>
+      simp only [haux, Option.map_some, Option.some.injEq] at h
+      apply key 0 none _ h
+      intro t' ht' l
+      cases t' with
+      | empty => simp [lookup]
+      | leaf k' v' => simp [T.hash] at ht'; exact absurd ht' (hcr.nz _ (by simp))
+      | mid l' r' => simp [T.hash] at ht'; exact absurd ht' (hcr.nz _ (by simp))
+    | some kv =>
+      obtain ⟨k', v'⟩ := kv
+      simp only [haux] at h
+      split at h
+      · simp at h
+      · rename_i hne
+        simp only [Option.map_some, Option.some.injEq] at h
+        apply key (P [k', v', 1]) none _ h
+        intro t' ht' l
+        cases t' with
+        | empty => simp [lookup]
+        | leaf k'' v'' =>
+          simp [T.hash] at ht'
+          have := hcr.inj _ _ (by simp) (by simp) ht'
+          simp at this
+          simp [lookup, this.1, hne]
+        | mid l' r' =>
+          simp [T.hash] at ht'
+          have := hcr.inj _ _ (by simp) (by simp) ht'
+          simp at this
+
+end Gsp.Smt
